@@ -99,3 +99,43 @@ Qed.
 (* C03 on the translated step: never FIRST, MID with discount 1 or LAST with discount 0 (no truncation) -- any state, any action *)
 Lemma src_step_protocol T dense s a : step_ok 1 false (snd (step T (reward_src dense) s a)) = true.
 Proof. destruct (step_src T dense s a) as [_ E]. rewrite E. apply step_protocol. Qed.
+
+(* C11 on the translated step: LAST exactly when all boxes are on targets or the limit is reached; whole runs of the translated step *)
+Fixpoint run_src (T : Z) (dense : bool) (s : State) (acts : list Z) : State :=
+  match acts with [] => s | a :: r => run_src T dense (fst (step T (reward_src dense) s a)) r end.
+Lemma run_src_eq T dense acts : forall s, conv (run_src T dense s acts) = M.run GRID_SIZE T dense (conv s) acts.
+Proof.
+  induction acts as [|a r IH]; intros s; cbn [run_src M.run]; [reflexivity|].
+  rewrite IH. destruct (step_src T dense s a) as [E1 _]. rewrite E1. reflexivity.
+Qed.
+Lemma src_last_iff T dense s a :
+  let s' := conv (fst (step T (reward_src dense) s a)) in
+  st (snd (step T (reward_src dense) s a)) = LAST <-> (cnt_of s' = M.N_BOXES \/ T <= M.sc s').
+Proof. cbv zeta. destruct (step_src T dense s a) as [E1 E2]. rewrite E1, E2. exact (step_last_iff GRID_SIZE T dense (conv s) a). Qed.
+Lemma src_episode_limit T dense s0 acts a : s_step_count s0 = 0 ->
+  let s := run_src T dense s0 acts in
+  let n := zlen acts in
+  let t := snd (step T (reward_src dense) s a) in
+  (n + 1 = T -> st t = LAST) /\
+  (n + 1 < T -> st t = LAST -> cnt_of (conv (fst (step T (reward_src dense) s a))) = M.N_BOXES) /\
+  (T <= n + 1 -> st t = LAST).
+Proof.
+  intros H0. cbv zeta. destruct (step_src T dense (run_src T dense s0 acts) a) as [E1 E2]. rewrite E1, E2, run_src_eq.
+  exact (episode_limit GRID_SIZE T dense (conv s0) acts a H0).
+Qed.
+(* C05: an illegal move (into a wall, or pushing a box that cannot move) is ignored -- only the step counter advances *)
+Lemma src_illegal_ignored_full T dense s a :
+  M.Physical GRID_SIZE (conv s) -> 0 <= a < 4 -> M.legal_b GRID_SIZE (conv s) a = false ->
+  let s' := conv (fst (step T (reward_src dense) s a)) in
+  let t := snd (step T (reward_src dense) s a) in
+  let cnt := M.on_target GRID_SIZE (M.var (conv s)) (M.fixed (conv s)) in
+  M.fixed s' = M.fixed (conv s) /\ M.var s' = M.var (conv s) /\ M.ar s' = M.ar (conv s) /\ M.ac s' = M.ac (conv s) /\ M.sc s' = M.sc (conv s) + 1
+  /\ reward t = [if dense then 100 * b2z (cnt =? M.N_BOXES) - 1 else 100 * b2z (cnt =? M.N_BOXES)]
+  /\ (st t = LAST <-> (cnt = M.N_BOXES \/ T <= M.sc (conv s) + 1)) /\ (st t = MID \/ st t = LAST).
+Proof.
+  intros P Ha Hl. cbv zeta. destruct (step_src T dense s a) as [E1 E2]. rewrite E1, E2.
+  exact (illegal_ignored GRID_SIZE T dense (conv s) a P Ha Hl).
+Qed.
+(* C08: the dense and the sparse reward function drive the SAME trajectory of the translated step *)
+Lemma src_same_trajectory T acts s : conv (run_src T true s acts) = conv (run_src T false s acts).
+Proof. rewrite !run_src_eq. exact (run_dense GRID_SIZE T acts (conv s)). Qed.
